@@ -195,7 +195,8 @@ CLAIMED = {
                  'total, idempotent up to canonicalisation, commutative, associative and an upper bound (kernel-decided over the '
                  'whole table).  The model is compared with the implementation over kinds × shapes × operations × operand types '
                  '× forward/reflected, and NumPy component-wise evaluation, structure/shape/dtype of factories and *_like '
-                 'helpers, the Hermitian dot and as_promoted_dtype are checked on the implementation.'),
+                 'helpers, the Hermitian dot and as_promoted_dtype are checked on the implementation.'
+                 ' HERMITIAN DOT over complex leaves (FuraxModel/ComplexDot.lean, Props/C20Complex.lean): treeDot over Gaussian rationals is conjugate-symmetric, linear in the second and conjugate-linear in the first argument, real and non-negative on (x, x) and zero only for x = 0, and reduces to the real dot on real data; the variant that conjugates only when the SECOND operand is complex is proved wrong (and invisible to real/real, complex/complex and real/complex tests); tree.dot and the container @ are compared with the model exactly on integer complex data; the *_like helpers, as_structure and as_promoted_dtype are checked leaf by leaf on general pytrees with mixed shapes and dtypes.'),
         'note': ('Trusted: Lean kernel + standard axioms; A1/A8 (jnp arithmetic, rounding: division and power compared to 1e-5). '
                  'Many statements are close to the definitions; the assurance is mostly the correspondence. NumPy-array operands '
                  'are outside the claim (NumPy dispatches first).'),
